@@ -15,7 +15,7 @@ pub const WARPS: &[&str] = &["w0", "w1", "w2"];
 pub const NODES: &[&str] = &["n0", "n1", "n2", "n3"];
 pub const EDGES: &[&str] = &["e0", "e1", "e2"];
 pub const TYPES: &[&str] = &["tA", "tB"];
-pub const ATOMS: &[&str] = &["p0", "p1", "p2"];
+pub const ATOMS: &[&str] = &["p0", "p1", "p2", "p3"];
 
 /// Salt mixed into every label; changing it changes all id orders (used to explore
 /// other canonical orders with the same model).
@@ -39,12 +39,14 @@ pub fn edge(m: &str) -> EdgeId {
 pub fn ty(m: &str) -> TypeId {
     make_type_id(&lbl("type", m))
 }
-/// p0 and p1 share a type and differ in bytes; p2 has p0's bytes under another type.
+/// p0 and p1 share a type and differ in bytes; p2 has p0's bytes under another type; p3 is empty.
 pub fn atom(m: &str) -> AtomPayload {
     match m {
         "p0" => AtomPayload::new(make_type_id("verif/atom/A"), bytes::Bytes::from_static(&[0u8])),
         "p1" => AtomPayload::new(make_type_id("verif/atom/A"), bytes::Bytes::from_static(&[1u8, 7])),
         "p2" => AtomPayload::new(make_type_id("verif/atom/B"), bytes::Bytes::from_static(&[0u8])),
+        // zero-length payload (boundary case for blob tables and length-prefixed hashing)
+        "p3" => AtomPayload::new(make_type_id("verif/atom/A"), bytes::Bytes::new()),
         other => AtomPayload::new(
             make_type_id("verif/atom/X"),
             bytes::Bytes::from(other.as_bytes().to_vec()),
